@@ -19,6 +19,16 @@ and the flush half of `ctrlMiddleware.processCacheFlushRsp`. The shootdown path 
 * `processTLBFlushRsp` (`CpS.rTLB`; at 0: `ShootdownCompleteRsp` to the driver, `Send` unchecked,
   `shootDownInProcess = false`).
 
+Since repair 0728adcb a `FlushReq` waits in the driver port while `shootDownInProcess` and a
+`ShootDownCommand` waits while `numCacheACK > 0` (`CpS.handle`, `CpS.hShoot`; the code before that repair
+is kept as `CpS.handleOld / hShootOld / tickOld`, `CpSEnv.stepOld`, `runOld`). A THIRD user of the counter
+was added by repair da0cc607: `cpMiddleware.processLaunchKernelReq` → `invalidateL1CachesBeforeKernel`
+sends an invalidating `FlushReq` to every L1S and L1V cache before a kernel starts on an idle GPU
+(`numCacheACK++` each, `l1InvalidatedFor = req`, the request stays at the head of the port), and
+`processCacheFlushRsp` consumes the last acknowledgement silently when `l1InvalidatedFor != nil`
+(`CpS.launch`, the `l1Inv` branch of `CpS.cacheRsp`; dispatchers = a counter `busy ≤ nDisp`, a kernel
+ends by the environment move `kdone`).
+
 `CpS` = the state `Cp` of `C11Cp.lean` as the field `c` (the copy stages ARE `Cp.handle` / `Cp.dmaRsp`)
 plus the shootdown state. Every unchecked `Send` is modelled with its buffer capacity: when the
 outgoing buffer is full the message is dropped, the counter is incremented all the same (ghost
@@ -42,6 +52,8 @@ open Util
 inductive SIn where
   | req (m : CpMsg)
   | shoot (id : Nat)
+  /-- a `LaunchKernelReq` -/
+  | launch (id : Nat)
 deriving DecidableEq, Repr
 
 /-- a message in ToDriver's outgoing buffer: an answer of the copy / flush path or a
@@ -53,11 +65,11 @@ deriving DecidableEq, Repr
 
 def SIn.req? : SIn → Option CpMsg
   | .req m => some m
-  | .shoot _ => none
+  | _ => none
 
 def SIn.isReq : SIn → Bool
   | .req _ => true
-  | .shoot _ => false
+  | _ => false
 
 def SOut.ans? : SOut → Option CpMsg
   | .ans m => some m
@@ -89,6 +101,14 @@ inductive SEv where
   | tlbAck
   /-- the `ShootdownCompleteRsp` of shootdown `id` was handed to `ToDriver.Send`, error ignored -/
   | shootDone (id : Nat) (sent : Bool)
+  /-- `invalidateCache`: an invalidating flush request for (L1S / L1V) cache `i` was sent before kernel
+      `id` starts (`numCacheACK++`) -/
+  | inval (id i : Nat)
+  /-- a `cache.FlushRsp` was processed while `l1InvalidatedFor != nil` and no shootdown is in process
+      (`numCacheACK--`; at 0 nothing is answered) -/
+  | ackI
+  /-- kernel `id` was handed to a dispatcher (`StartDispatching`), the request left the driver port -/
+  | kstart (id : Nat)
 deriving DecidableEq, Repr
 
 /-- `n--` on a `uint64` -/
@@ -96,6 +116,9 @@ def dec64 (n : Nat) : Nat := if n = 0 then 18446744073709551615 else n - 1
 
 /-- code of a reset request in `Cp.cacheOut` -/
 def resetBase : Nat := 1000000
+
+/-- code of a kernel-start invalidation request in `Cp.cacheOut` -/
+def invBase : Nat := 2000000
 
 /-- a loop of `Send`s whose error is ignored: the ghost events (`ms` in loop order, `r` = free slots) -/
 def sendEvs (ev : Nat → Bool → SEv) (r : Nat) (ms : List Nat) : List SEv :=
@@ -114,7 +137,14 @@ structure CpS where
   capCU : Nat := 4096
   capAT : Nat := 4096
   capTLB : Nat := 4096
-  /-- the driver port from the first `ShootDownCommand` on -/
+  /-- number of dispatchers, how many of them are dispatching a kernel -/
+  nDisp : Nat := 1
+  busy : Nat := 0
+  /-- `l1InvalidatedFor`: the launch request whose kernel-start invalidation has been issued -/
+  l1Inv : Option Nat := none
+  /-- ghost: kernels started so far -/
+  started : Nat := 0
+  /-- the driver port from the first message that is not a copy / flush request on -/
   later : List SIn := []
   /-- ToDriver's outgoing buffer up to its last `ShootdownCompleteRsp` -/
   outEarlier : List SOut := []
@@ -161,27 +191,89 @@ def CpS.liftCp (s : CpS) (r : Cp × Bool) : CpS × Bool :=
   ({ s with c := { r.1 with capDrv := s.c.capDrv },
             log := s.log ++ (r.1.log.drop s.c.log.length).map SEv.cp }, r.2)
 
-/-- `cpMiddleware.Handle` (`processFlushReq` / `processMemCopyReq`, guarded by `numCacheACK > 0`) -/
-def CpS.handle (s : CpS) : CpS × Bool := s.liftCp s.cpView.handle
+/-- the kernel at the head of the port starts: `StartDispatching`, `RetrieveIncoming` -/
+def CpS.kstart (s : CpS) (id : Nat) (rest : List SIn) : CpS :=
+  { s with busy := s.busy + 1, started := s.started + 1, l1Inv := none,
+           c := { s.c with drvIn := (rest.takeWhile SIn.isReq).filterMap SIn.req? },
+           later := rest.dropWhile SIn.isReq,
+           log := s.log ++ [.kstart id] }
+
+/-- `invalidateCache` (checked `Send`: `panic(err)` when ToCaches is full) -/
+def CpS.invalidate (id : Nat) (s : CpS) (i : Nat) : CpS :=
+  if s.c.fault.isSome then s else
+  if s.c.cacheOut.length < s.c.capCache then
+    { s with c := { s.c with cacheOut := s.c.cacheOut ++ [invBase + i], numAck := s.c.numAck + 1 },
+             log := s.log ++ [.inval id i] }
+  else { s with c := { s.c with fault := some "cache_send" } }
+
+/-- the caches `invalidateL1CachesBeforeKernel` asks: L1S, then L1V -/
+def CpS.ordInval (s : CpS) : List Nat := cpsSeg s.nI s.nS ++ cpsSeg (s.nI + s.nS) s.nV
+
+/-- `cpMiddleware.processLaunchKernelReq` for the launch request `id` at the head of the port
+    (`rest` = the port behind it): no free dispatcher → wait; `numCacheACK > 0` → wait;
+    `invalidateL1CachesBeforeKernel`: the invalidation of this request is complete → start; a kernel is
+    running → start without invalidation; else one invalidating flush request per L1S / L1V cache, and
+    the request waits (without such caches: start) -/
+def CpS.launch (s : CpS) (id : Nat) (rest : List SIn) : CpS × Bool :=
+  if s.nDisp ≤ s.busy then (s, false) else
+  if s.c.numAck > 0 then (s, false) else
+  if s.l1Inv = some id then (s.kstart id rest, true) else
+  if s.busy > 0 then (s.kstart id rest, true) else
+  let s1 := s.ordInval.foldl (CpS.invalidate id) s
+  if s1.c.fault.isSome then (s1, true) else
+  if s1.c.numAck = 0 then (s1.kstart id rest, true) else
+  ({ s1 with l1Inv := some id }, true)
+
+/-- `cpMiddleware.Handle` on the head of the driver port: `processFlushReq` / `processMemCopyReq` (guarded
+    by `numCacheACK > 0`; a flush also waits while `shootDownInProcess`) or `processLaunchKernelReq` -/
+def CpS.handle (s : CpS) : CpS × Bool :=
+  if s.c.fault.isSome then (s, false) else
+  match s.c.drvIn, s.later with
+  | [], .launch id :: rest => s.launch id rest
+  | m :: _, _ => if m.kind = .flush ∧ s.shoot = true then (s, false) else s.liftCp s.cpView.handle
+  | _, _ => (s, false)
+
+/-- `cpMiddleware.Handle` before repair 0728adcb: a flush request does not wait for a shootdown -/
+def CpS.handleOld (s : CpS) : CpS × Bool :=
+  if s.c.fault.isSome then (s, false) else
+  match s.c.drvIn, s.later with
+  | [], .launch id :: rest => s.launch id rest
+  | _ :: _, _ => s.liftCp s.cpView.handle
+  | _, _ => (s, false)
 
 /-- `cpMiddleware.processRspFromDMAs` -/
 def CpS.dmaRsp (s : CpS) : CpS × Bool := s.liftCp s.cpView.dmaRsp
 
-/-- `ctrlMiddleware.Handle` → `processShootdownCommand` (the other control commands are not modelled) -/
+/-- `processShootdownCommand` accepts shootdown `id` (`rest` = the port behind it) -/
+def CpS.shootAccept (s : CpS) (id : Nat) (rest : List SIn) : CpS :=
+  let r := s.capCU - s.cuOut.length
+  let ms := List.range s.nCU
+  { s with shoot := true, curShoot := some id,
+           numCU := s.numCU + s.nCU,
+           cuOut := s.cuOut ++ ms.take r,
+           dropCU := s.dropCU + (ms.drop r).length,
+           c := { s.c with drvIn := (rest.takeWhile SIn.isReq).filterMap SIn.req? },
+           later := rest.dropWhile SIn.isReq,
+           log := s.log ++ .shootStart id :: sendEvs .cuReq r ms }
+
+/-- `ctrlMiddleware.Handle` → `processShootdownCommand` (the other control commands are not modelled):
+    refuses while `shootDownInProcess` and — since repair 0728adcb — while `numCacheACK > 0` -/
 def CpS.hShoot (s : CpS) : CpS × Bool :=
   if s.c.fault.isSome then (s, false) else
   match s.c.drvIn, s.later with
   | [], .shoot id :: rest =>
     if s.shoot then (s, false) else
-    let r := s.capCU - s.cuOut.length
-    let ms := List.range s.nCU
-    ({ s with shoot := true, curShoot := some id,
-              numCU := s.numCU + s.nCU,
-              cuOut := s.cuOut ++ ms.take r,
-              dropCU := s.dropCU + (ms.drop r).length,
-              c := { s.c with drvIn := (rest.takeWhile SIn.isReq).filterMap SIn.req? },
-              later := rest.dropWhile SIn.isReq,
-              log := s.log ++ .shootStart id :: sendEvs .cuReq r ms }, true)
+    if s.c.numAck > 0 then (s, false) else
+    (s.shootAccept id rest, true)
+  | _, _ => (s, false)
+
+/-- `processShootdownCommand` before repair 0728adcb -/
+def CpS.hShootOld (s : CpS) : CpS × Bool :=
+  if s.c.fault.isSome then (s, false) else
+  match s.c.drvIn, s.later with
+  | [], .shoot id :: rest =>
+    if s.shoot then (s, false) else
+    (s.shootAccept id rest, true)
   | _, _ => (s, false)
 
 /-- `processRspFromCUs` → `processCUPipelineFlushRsp` -/
@@ -223,7 +315,8 @@ def CpS.rAT (s : CpS) : CpS × Bool :=
 
 /-- `processRspFromCaches` → `processCacheFlushRsp`, shared by the flush path and the shootdown path:
     guard `numCacheACK == 1 && !shootDownInProcess && !ToDriver.CanSend()`; `numCacheACK--`; at 0 with
-    the flag `processCacheFlushCausedByTLBShootdown`, without it `processRegularCacheFlush` -/
+    the flag `processCacheFlushCausedByTLBShootdown`, else with `l1InvalidatedFor != nil` nothing,
+    else `processRegularCacheFlush` -/
 def CpS.cacheRsp (s : CpS) : CpS × Bool :=
   if s.c.fault.isSome then (s, false) else
   match s.c.cacheIn with
@@ -242,6 +335,9 @@ def CpS.cacheRsp (s : CpS) : CpS × Bool :=
                   dropTLB := s.dropTLB + (ms.drop r).length,
                   log := s.log ++ sendEvs .tlbReq r ms }, true)
       else (s, true)
+    else if s.l1Inv.isSome then
+      -- at 0: "the kernel-start invalidation of the L1 caches is complete; nobody waits for a response"
+      ({ s with c := { s.c with numAck := n, cacheIn := rest }, log := s.log ++ [.ackI] }, true)
     else
       let s := { s with c := { s.c with numAck := n, cacheIn := rest, log := s.c.log ++ [.ack] },
                         log := s.log ++ [.cp .ack] }
@@ -285,6 +381,24 @@ def CpS.pass (s : CpS) : CpS × Bool :=
   let l := k.1.rTLB
   (l.1, a.2 || b.2 || h.2 || u.2 || t.2 || k.2 || l.2)
 
+/-- one pass before repair 0728adcb -/
+def CpS.passOld (s : CpS) : CpS × Bool :=
+  let a := s.handleOld
+  let b := a.1.dmaRsp
+  let h := b.1.hShootOld
+  let u := h.1.rCU
+  let t := u.1.rAT
+  let k := t.1.cacheRsp
+  let l := k.1.rTLB
+  (l.1, a.2 || b.2 || h.2 || u.2 || t.2 || k.2 || l.2)
+
+/-- `CommandProcessor.Tick` before repair 0728adcb -/
+def CpS.tickOld (s : CpS) : CpS × Bool :=
+  if s.c.fault.isSome then (s, false) else
+  let a := if s.c.drvIn.isEmpty && s.later.isEmpty then (s, false) else s.passOld
+  let b := a.1.passOld
+  (b.1, a.2 || b.2)
+
 /-- `CommandProcessor.Tick` (dispatchers idle): `processReqFromDriver` only when the driver port holds
     a message (of any kind), then `processRspFromInternal` -/
 def CpS.tick (s : CpS) : CpS × Bool :=
@@ -302,6 +416,8 @@ structure CpSEnv where
   sent : List CpMsg := []
   /-- shootdown commands accepted by the driver port so far (ids 0,1,2,…) -/
   shootSent : Nat := 0
+  /-- kernel launch requests accepted by the driver port so far (ids 0,1,2,…) -/
+  launchSent : Nat := 0
   atDma : List CpClone := []
   /-- cache requests (flush: `i`, reset: `resetBase + i`) taken from ToCaches, not yet acknowledged -/
   atCaches : List Nat := []
@@ -326,6 +442,10 @@ inductive SOp where
   | cp (op : CpOp)
   /-- the driver delivers a `ShootDownCommand` -/
   | shoot
+  /-- the driver delivers a `LaunchKernelReq` -/
+  | launch
+  /-- a dispatcher finishes its kernel -/
+  | kdone
   /-- the components of a class take up to `k` messages from the CP's port to them -/
   | take (c : SCls) (k : Nat)
   /-- the `j`-th outstanding request of a class is acknowledged -/
@@ -338,7 +458,9 @@ def outStr : SOut → String
   | .ans m => msgStr m
   | .sdone _ => "S"
 
-def cacheStr (x : Nat) : String := if x < resetBase then toString x else "R" ++ toString (x - resetBase)
+def cacheStr (x : Nat) : String :=
+  if x < resetBase then toString x else if x < invBase then "R" ++ toString (x - resetBase)
+  else "I" ++ toString (x - invBase)
 
 def CpS.out (s : CpS) : SCls → List Nat
   | .cu => s.cuOut
@@ -373,9 +495,10 @@ def SCls.tag : SCls → String
   | .at => "xa"
   | .tlb => "xl"
 
-/-- `numCUAck,numAddrTranslationFlushAck,numTLBAck,numCacheACK,shootDownInProcess,currFlushRequest != nil` -/
+/-- `numCUAck,numAddrTranslationFlushAck,numTLBAck,numCacheACK,shootDownInProcess,currFlushRequest != nil,
+    l1InvalidatedFor != nil,dispatchers dispatching,kernels started` -/
 def CpS.sig (s : CpS) : String :=
-  s!"{s.numCU},{s.numAT},{s.numTLB},{s.c.numAck},{if s.shoot then 1 else 0},{if s.c.curFlush.isSome then 1 else 0}"
+  s!"{s.numCU},{s.numAT},{s.numTLB},{s.c.numAck},{if s.shoot then 1 else 0},{if s.c.curFlush.isSome then 1 else 0},{if s.l1Inv.isSome then 1 else 0},{s.busy},{s.started}"
 
 /-- one environment move; the string is what the harness observes on the real component -/
 def CpSEnv.step (e : CpSEnv) : SOp → CpSEnv × String
@@ -390,6 +513,12 @@ def CpSEnv.step (e : CpSEnv) : SOp → CpSEnv × String
     if e.s.portLen < e.s.c.capIn then
       ({ e with s := { e.s with later := e.s.later ++ [.shoot e.shootSent] }, shootSent := e.shootSent + 1 }, "ok")
     else (e, "full")
+  | .launch =>
+    if e.s.portLen < e.s.c.capIn then
+      ({ e with s := { e.s with later := e.s.later ++ [.launch e.launchSent] }, launchSent := e.launchSent + 1 }, "ok")
+    else (e, "full")
+  | .kdone =>
+    if e.s.busy = 0 then (e, "none") else ({ e with s := { e.s with busy := e.s.busy - 1 } }, "ok")
   | .cp .tick =>
     let r := e.s.tick
     ({ e with s := r.1 }, match r.1.c.fault with
@@ -447,6 +576,19 @@ def CpSEnv.run (e : CpSEnv) : List SOp → CpSEnv
   | [] => e
   | op :: rest => ((e.step op).1).run rest
 
+/-- the environment around the code before repair 0728adcb -/
+def CpSEnv.stepOld (e : CpSEnv) : SOp → CpSEnv × String
+  | .cp .tick =>
+    let r := e.s.tickOld
+    ({ e with s := r.1 }, match r.1.c.fault with
+      | some f => "fault:" ++ f
+      | none => if r.2 then "t1" else "t0")
+  | op => e.step op
+
+def CpSEnv.runOld (e : CpSEnv) : List SOp → CpSEnv
+  | [] => e
+  | op :: rest => ((e.stepOld op).1).runOld rest
+
 /-- the observable strings of a run -/
 def CpSEnv.trace (e : CpSEnv) : List SOp → List String
   | [] => []
@@ -468,6 +610,7 @@ structure CpSCfg where
   capCU : Nat := 4096
   capAT : Nat := 4096
   capTLB : Nat := 4096
+  nDisp : Nat := 1
 deriving DecidableEq, Repr
 
 def CpSCfg.nCaches (g : CpSCfg) : Nat := g.nI + g.nS + g.nV + g.n2
@@ -476,13 +619,14 @@ def CpSEnv.init (g : CpSCfg) : CpSEnv :=
   { s := { c := { nCaches := g.nCaches, capIn := g.capIn, capDrv := g.capDrv, capDma := g.capDma,
                   capCache := g.capCache },
            nI := g.nI, nS := g.nS, nV := g.nV, n2 := g.n2, nCU := g.nCU, nAT := g.nAT, nTLB := g.nTLB,
-           capCU := g.capCU, capAT := g.capAT, capTLB := g.capTLB } }
+           capCU := g.capCU, capAT := g.capAT, capTLB := g.capTLB, nDisp := g.nDisp } }
 
 /-! ## Line protocol: `c11 cps cu= at= tlb= caches= l1i= l1s= l1v= cin= cdrv= cdma= ccache= ccu= cat= ctlb= ; op ; …`
 (`caches` = number of caches, of which `l1i`, `l1s`, `l1v` (default 0) are L1 caches of that kind and
 the rest L2). ops: those of `c11 cpmw` (`f h d F n H n D n t T n xd k xc k xr k a j r j`), `s` (deliver a
 `ShootDownCommand`), `xu k` `xa k` `xl k` (take from ToCUs / ToAddressTranslators / ToTLBs),
-`au j` `aa j` `al j` (acknowledge the `j`-th outstanding request of the class), `q` (counters). -/
+`au j` `aa j` `al j` (acknowledge the `j`-th outstanding request of the class), `q` (counters),
+`k` (deliver a `LaunchKernelReq`), `kd j` (a busy dispatcher finishes its kernel); config `disp=` dispatchers. -/
 
 def cpsRepeat (e : CpSEnv) (op : SOp) : Nat → CpSEnv × List String
   | 0 => (e, [])
@@ -504,6 +648,8 @@ def cpsLineOp (e : CpSEnv) (toks : List String) : CpSEnv × String :=
   | ["h"] => one (.cp (.req .h2d))
   | ["d"] => one (.cp (.req .d2h))
   | ["s"] => one .shoot
+  | ["k"] => one .launch
+  | ["kd", _] => one .kdone
   | ["F", n] => many (.cp (.req .flush)) n cnt
   | ["H", n] => many (.cp (.req .h2d)) n cnt
   | ["D", n] => many (.cp (.req .d2h)) n cnt
@@ -543,7 +689,8 @@ def runCps (cfg : List String) (ops : List String) : String :=
       capCache := g "ccache" 4096
       capCU := g "ccu" 4096
       capAT := g "cat" 4096
-      capTLB := g "ctlb" 4096 }
+      capTLB := g "ctlb" 4096
+      nDisp := g "disp" 1 }
   let e := CpSEnv.init gc
   let r := ops.foldl (fun (a : CpSEnv × List String) o =>
     let q := cpsLineOp a.1 (words o)
